@@ -12,6 +12,6 @@ Separate Extraction
   moov_add_trak elng_payload elng_decode trak_shape stpp_payload stpp_decode
   avcrec hvcrec avcrec_size avcrec_encode avcrec_decode avcrec_canon avcrec_of
   hvcrec_size hvcrec_encode hvcrec_decode hvcrec_of
-  tree_of init_encode roundtrip_ok is_fragmented_init has_trex encode_seq size_box decode_file
+  tree_of init_encode roundtrip_ok is_fragmented_init has_trex encode_seq size_box decode_file args_okb enc_fits
   nalu_sps nalu_pps sps_valid pps_valid display_width display_height compat_byte eff_chroma_format_idc has_chroma_block
   nalu_of ue_bits hnalu_sps hnalu_pps hsps_valid hpps_valid hrps_valid derive_one d_num_delta expected_himage_size constraint48.
